@@ -212,6 +212,33 @@ class _Subst(ast.NodeTransformer):
         return node
 
 
+class _Unroll(ast.NodeTransformer):
+    """(e for p in v) / [e for p in v] over a record variable v -> the tuple of e for each field of v."""
+
+    def __init__(self, var: str, fields: list[str]):
+        self.var, self.fields = var, fields
+
+    def _unroll(self, node):
+        if len(node.generators) == 1 and not node.generators[0].ifs and isinstance(node.generators[0].iter, ast.Name) and node.generators[0].iter.id == self.var \
+                and isinstance(node.generators[0].target, ast.Name):
+            p = node.generators[0].target.id
+            omod = getattr(node, '_omod', '')
+            elts = []
+            for f in self.fields:
+                comp = ast.Attribute(value=ast.Name(id=self.var, ctx=ast.Load()), attr=f, ctx=ast.Load())
+                elts.append(_Subst({p: comp}, {}, omod).visit(clone(node.elt, omod)))
+            return ast.Tuple(elts=elts, ctx=ast.Load())
+        return node
+
+    def visit_GeneratorExp(self, node):
+        self.generic_visit(node)
+        return self._unroll(node)
+
+    def visit_ListComp(self, node):
+        self.generic_visit(node)
+        return self._unroll(node)
+
+
 class _Beta(ast.NodeTransformer):
     """(lambda a, b: body)(x, y) -> body[a := x, b := y] for positional calls of a lambda literal."""
 
@@ -238,7 +265,14 @@ class Normaliser:
         self.world = world
         self.functions_only = functions_only
         self.table = None if functions_only else ClassTable(world)
-        self.known = load_known()
+        base_known = load_known()
+        self.known = {'functions': set(base_known['functions']), 'classes': set(base_known['classes'])}
+        # functions put back under a known name keep their original qualified name known too (calls written against it
+        # inside moved code must not be inlined)
+        extra = getattr(world, 'known_extra', set())
+        if extra:
+            self.known = {'functions': set(self.known['functions']) | set(extra), 'classes': self.known['classes']}
+        self.known_extra: set[str] = set(extra)
         self.known_method_names = {q.rsplit('.', 1)[-1] for q in self.known['functions']}
         self.counter = 0
         self.failed: set[int] = set()
@@ -266,12 +300,16 @@ class Normaliser:
             # phase A0: `name = staticmethod(f)` in a class body, for a method name the rules know and a module-level
             # function f they do not: the method is written out again and calls of f are addressed to it
             self._materialise_aliases(trees)
+            # phase A0b: a module-level function the rules know that now lives in another module (imported back under
+            # its old name, or simply moved with its name) is put back where they expect it
+            self._relocate_functions(trees)
             # phase A: calls of unknown module-level functions, everywhere (class decorators included): needs no class table
             self.contexts = {}
             for name, tree in trees.items():
                 self._inline_module(tree, name)
             out = world_from_trees(world, trees)
             out.normalised = False  # type: ignore[attr-defined]
+            out.known_extra = set(self.known_extra)  # type: ignore[attr-defined]
             return out
         # cloned class bodies, by qualified class name
         cls_nodes: dict[str, ast.ClassDef] = {}
@@ -291,10 +329,224 @@ class Normaliser:
         self._specialise(cls_nodes)
         for name, tree in trees.items():
             self._inline_module(tree, name)
+        # private record types (NamedTuple / dataclass the rules do not know) used to carry intermediate values: their
+        # methods are inlined, then the record is replaced by its components
+        self._records(trees)
         self._drop_orphans(trees)
         for tree in trees.values():
             canonical_idioms(tree)
         return world_from_trees(world, trees)
+
+    # -------------------------------------------------------------- 4. scalar replacement of private records
+    def _record_classes(self) -> dict[str, tuple[ClassInfo, list[str]]]:
+        out = {}
+        for c in self.table.classes.values():
+            if not self.class_unknown(c):
+                continue
+            bases = [ast.unparse(b) for b in c.node.bases]
+            decos = [ast.unparse(d) for d in c.node.decorator_list]
+            is_nt = any(b.split('.')[-1] == 'NamedTuple' for b in bases)
+            is_dc = any('dataclass' in d for d in decos)
+            if not (is_nt or is_dc) or any(n in c.own for n in ('__init__', '__new__', '__post_init__')):
+                continue
+            fields = [st.target.id for st in c.node.body if isinstance(st, ast.AnnAssign) and isinstance(st.target, ast.Name) and 'ClassVar' not in ast.unparse(st.annotation)]
+            if fields:
+                out[c.name] = (c, fields)
+        return out
+
+    def _records(self, trees: dict[str, ast.Module]) -> None:
+        recs = self._record_classes()
+        if not recs:
+            return
+        for modname, tree in trees.items():
+            for fn in [n for n in ast.walk(tree) if isinstance(n, ast.FunctionDef)]:
+                for _ in range(4):
+                    if not self._records_in_function(fn, recs, modname):
+                        break
+
+    def _records_in_function(self, fn: ast.FunctionDef, recs: dict, modname: str) -> bool:
+        changed = False
+        # 0. K(*call) -> temporaries ; K(*(e for p in v)) handled after v is known
+        for block in [b for n in ast.walk(fn) for b in (getattr(n, 'body', None), getattr(n, 'orelse', None)) if isinstance(b, list) and b and isinstance(b[0], ast.stmt)]:
+            for i, st in enumerate(list(block)):
+                if not (isinstance(st, ast.Assign) and len(st.targets) == 1 and isinstance(st.targets[0], ast.Name) and isinstance(st.value, ast.Call)):
+                    continue
+                call = st.value
+                cname = call.func.id if isinstance(call.func, ast.Name) else None
+                if cname not in recs or call.keywords or len(call.args) != 1 or not isinstance(call.args[0], ast.Starred):
+                    continue
+                _c, fields = recs[cname]
+                inner = call.args[0].value
+                if isinstance(inner, (ast.Tuple, ast.List)) and len(inner.elts) == len(fields):
+                    call.args = list(inner.elts)
+                    changed = True
+                    continue
+                if isinstance(inner, ast.Call):
+                    v = st.targets[0].id
+                    names = [f'{v}_{f}' for f in fields]
+                    tup = ast.Tuple(elts=[ast.Name(id=n, ctx=ast.Store()) for n in names], ctx=ast.Store())
+                    pre = ast.Assign(targets=[tup], value=inner)
+                    self._mark(pre, st)
+                    call.args = [ast.Name(id=n, ctx=ast.Load()) for n in names]
+                    self._mark(call, st)
+                    block.insert(block.index(st), pre)
+                    changed = True
+        # 1. variables bound once to a record construction
+        bound: dict[str, tuple[ast.Assign, list[str], list[ast.AST], ClassInfo]] = {}
+        stores: dict[str, int] = {}
+        for n in ast.walk(fn):
+            if isinstance(n, ast.Name) and isinstance(n.ctx, ast.Store):
+                stores[n.id] = stores.get(n.id, 0) + 1
+        for n in ast.walk(fn):
+            if isinstance(n, ast.Assign) and len(n.targets) == 1 and isinstance(n.targets[0], ast.Name) and isinstance(n.value, ast.Call) and isinstance(n.value.func, ast.Name) and n.value.func.id in recs:
+                c, fields = recs[n.value.func.id]
+                call = n.value
+                if any(isinstance(a, ast.Starred) for a in call.args) or any(k.arg is None for k in call.keywords) or stores.get(n.targets[0].id) != 1:
+                    continue
+                vals: list = list(call.args) + [None] * (len(fields) - len(call.args))
+                ok = len(call.args) <= len(fields)
+                for k in call.keywords:
+                    if k.arg in fields and vals[fields.index(k.arg)] is None:
+                        vals[fields.index(k.arg)] = k.value
+                    else:
+                        ok = False
+                if ok and all(v is not None for v in vals):
+                    bound[n.targets[0].id] = (n, fields, vals, c)
+        for v, (asg, fields, vals, c) in bound.items():
+            uses = [n for n in ast.walk(fn) if isinstance(n, ast.Name) and n.id == v and isinstance(n.ctx, ast.Load)]
+            parents = {id(u): None for u in uses}
+            for par in ast.walk(fn):
+                for ch in ast.iter_child_nodes(par):
+                    if id(ch) in parents:
+                        parents[id(ch)] = par
+            # 2. method calls / str() / _replace on the record: rewritten first
+            rewritten = False
+            for u in uses:
+                par = parents[id(u)]
+                if isinstance(par, ast.Attribute) and par.value is u and par.attr not in fields:
+                    gp = next((g for g in ast.walk(fn) if isinstance(g, ast.Call) and g.func is par), None)
+                    if gp is None:
+                        continue
+                    if par.attr == '_replace' and not gp.args and all(k.arg in fields for k in gp.keywords):
+                        new_vals = list(vals)
+                        for k in gp.keywords:
+                            new_vals[fields.index(k.arg)] = k.value
+                        gp.func = ast.Name(id=c.name, ctx=ast.Load())
+                        gp.args = [clone(x, getattr(x, '_omod', modname)) if x in vals else x for x in new_vals]
+                        gp.keywords = []
+                        self._mark(gp, asg)
+                        rewritten = True
+                    else:
+                        m = c.own.get(par.attr)
+                        if isinstance(m, ast.FunctionDef) and not m.decorator_list and not self.budget_exhausted():
+                            body = _docless(m.body)
+                            if len(body) == 1 and isinstance(body[0], ast.Return) and body[0].value is not None and len(m.args.args) == 1 + len(gp.args) and not gp.keywords:
+                                mapping = {m.args.args[0].arg: ast.Name(id=v, ctx=ast.Load())}
+                                for a, x in zip(m.args.args[1:], gp.args):
+                                    mapping[a.arg] = x
+                                expr = _Subst(mapping, {}, c.module.name).visit(clone(body[0].value, c.module.name))
+                                expr = _Unroll(v, fields).visit(expr)
+                                self._mark(expr, gp)
+                                self._replace(fn, gp, expr)
+                                rewritten = True
+                elif isinstance(par, ast.Call) and isinstance(par.func, ast.Name) and par.func.id == 'str' and par.args == [u] and isinstance(c.own.get('__str__'), ast.FunctionDef):
+                    m = c.own['__str__']
+                    body = _docless(m.body)
+                    if len(body) == 1 and isinstance(body[0], ast.Return) and body[0].value is not None:
+                        expr = _Subst({m.args.args[0].arg: ast.Name(id=v, ctx=ast.Load())}, {}, c.module.name).visit(clone(body[0].value, c.module.name))
+                        self._mark(expr, par)
+                        self._replace(fn, par, expr)
+                        rewritten = True
+            if rewritten:
+                return True
+            # 3. every remaining use must be a field load or a whole-record tuple unpacking
+            field_uses = []
+            whole = False
+            for u in uses:
+                par = parents[id(u)]
+                if isinstance(par, ast.Attribute) and par.value is u and par.attr in fields and isinstance(par.ctx, ast.Load):
+                    field_uses.append(par)
+                else:
+                    whole = True
+            if whole or not field_uses and not uses:
+                continue
+            # replace the construction by component bindings (atomic arguments are substituted directly)
+            pre: list[ast.stmt] = []
+            exprs: dict[str, ast.AST] = {}
+            rebound = {x.id for x in ast.walk(fn) if isinstance(x, ast.Name) and isinstance(x.ctx, ast.Store)}
+            for f, val in zip(fields, vals):
+                names_in = {x.id for x in ast.walk(val) if isinstance(x, ast.Name)}
+                stable = _atomic(val) and all(stores.get(nm, 0) <= 1 for nm in names_in)
+                if stable:
+                    exprs[f] = val
+                else:
+                    tmp = f'{v}_{f}'
+                    a2 = ast.Assign(targets=[ast.Name(id=tmp, ctx=ast.Store())], value=val)
+                    self._mark(a2, asg)
+                    pre.append(a2)
+                    exprs[f] = ast.Name(id=tmp, ctx=ast.Load())
+            for fu in field_uses:
+                new = clone(exprs[fu.attr], getattr(exprs[fu.attr], '_omod', None) or modname)
+                self._mark(new, fu)
+                self._replace(fn, fu, new)
+            # the constructor statement itself
+            for block in [b for n in ast.walk(fn) for b in (getattr(n, 'body', None), getattr(n, 'orelse', None), getattr(n, 'finalbody', None)) if isinstance(b, list)]:
+                if asg in block:
+                    k = block.index(asg)
+                    block[k:k + 1] = pre or ([] if len(block) > 1 else [self._mark_new(ast.Pass(), asg)])
+                    break
+            return True
+        return changed
+
+    def budget_exhausted(self) -> bool:
+        return False
+
+    def _relocate_functions(self, trees: dict[str, ast.Module]) -> None:
+        world = self.world
+        present = {f'{m}.{n.name}' for m, t in trees.items() for n in t.body if isinstance(n, ast.FunctionDef)}
+        unknown_defs: dict[str, list[tuple[str, ast.FunctionDef]]] = {}
+        for m, t in trees.items():
+            for n in t.body:
+                if isinstance(n, ast.FunctionDef) and self.func_unknown(f'{m}.{n.name}'):
+                    unknown_defs.setdefault(n.name, []).append((m, n))
+        for q in sorted(self.known['functions']):
+            modname, _, fname = q.rpartition('.')
+            if q in present or modname not in trees or modname + '.' + fname in present:
+                continue
+            if '.' in q[len(modname) + 1:]:
+                continue  # a method
+            src = None
+            module = world.modules.get(modname)
+            target = module.imports.get(fname) if module is not None else None
+            if target:
+                tq = world.canonical(target)
+                tm, _, tn = tq.rpartition('.')
+                cand = [(m, n) for m, n in unknown_defs.get(tn, []) if m == tm]
+                if len(cand) == 1:
+                    src = cand[0]
+            if src is None:
+                cand = unknown_defs.get(fname, [])
+                if len(cand) == 1:
+                    src = cand[0]
+            if src is None:
+                continue
+            sm, sdef = src
+            cp = clone(sdef, sm)
+            cp.name = fname
+            trees[modname].body.append(cp)
+            # the original goes when nothing else in its module refers to it
+            others = [x for x in ast.walk(trees[sm]) if isinstance(x, ast.Name) and x.id == sdef.name]
+            if not others:
+                trees[sm].body = [n for n in trees[sm].body if n is not sdef]
+            # import statements of the moved name in the receiving module are dropped (the definition is local again)
+            for st in list(trees[modname].body):
+                if isinstance(st, ast.ImportFrom):
+                    st.names = [a for a in st.names if (a.asname or a.name) != fname]
+                    if not st.names:
+                        trees[modname].body.remove(st)
+            self.log.append(f'{sm}.{sdef.name} put back as {modname}.{fname}')
+            self.known_extra.add(f'{sm}.{sdef.name}')
+            self.known['functions'] = set(self.known['functions']) | {f'{sm}.{sdef.name}'}
 
     def _materialise_aliases(self, trees: dict[str, ast.Module]) -> None:
         for modname, tree in trees.items():
